@@ -43,6 +43,7 @@ def build_analyzer(eng, st, fid, genv, iscsd, order, backend, kaiser=True):
         fields["x2"] = x2
     ref = eng.alloc(st, ObjV("SpectrumAnalyzer", fields))
     eng.setvar(st, fid, "self", ref)
+    genv.update(OLAP=olap)
     genv.update(nx=nx, fs=fs, alpha=alpha, REC1=st.heap[x1.loc], REC2=(st.heap[x2.loc] if iscsd else None), ORDER=order, ISCSD=bool(iscsd), BACKEND=backend, KAISER=kaiser)
     st.tags["analyzer"] = ref.loc
     st.tags["frozen"] = {"x1": x1.loc, "x2": x2.loc if iscsd else None, "config": fields["config"].loc}
@@ -65,15 +66,43 @@ SB_ENS = {
     "C05.statistics_are_the_kernel_results": "result._data['XX'][0] == KCALL['ret'][0] and result._data['YY'][0] == KCALL['ret'][1] and result._data['XY'][0] == complex(KCALL['ret'][2], KCALL['ret'][3]) and result._data['M2'][0] == KCALL['ret'][4]",
     "C05.window_sums": "result._data['S12'][0] == Sum(0, len(KCALL['w']), lambda n: KCALL['w'][n])**2 and result._data['S2'][0] == Sum(0, len(KCALL['w']), lambda n: KCALL['w'][n]**2)",
     "C05.frequency_reported": "result._data['f'][0] == freq",
+    # C14 / C02: the segmentation of a single-bin request is a function of the request (N, L, overlap) alone - the
+    # nearest-integer number of segments, evenly spread - never of what was computed before on this analyzer
+    "C14.segmentation_is_a_function_of_the_request": "len(KCALL['starts']) == (1 if nx == KCALL['L'] else max(1, rhu(((nx - KCALL['L']) / (1 - OLAP)) / KCALL['L'] + 1)))"
+    " and forall(0, len(KCALL['starts']), lambda m: KCALL['starts'][m] == (0 if len(KCALL['starts']) == 1 else rhe(m * ((nx - KCALL['L']) / (len(KCALL['starts']) - 1)))))",
     "C14.analyzer_state_untouched": "ANALYZER_UNCHANGED",
 }
 
 
-def make_single_bin(iscsd, order, backend, kaiser=True, by_L=True):
+def _install_cached_plan(eng, st, ref, genv):
+    """history: a plan satisfying the plan() postconditions is already cached on the analyzer"""
+    from pyvc import values as V
+    from pyvc.heap import DictV, ObjV
+    from pyvc.loops import fresh_list
+
+    nf = eng.fresh("nf", "int")
+    st.assume(V.cmp(">=", nf, 1))
+    pd_ = {"nf": nf}
+    for k_, ty_ in (("f", "real"), ("r", "real"), ("b", "real"), ("m", "real"), ("L", "int"), ("K", "int"), ("navg", "int"), ("O", "real")):
+        pd_[k_] = eng.alloc(st, eng.fresh_array("plan_" + k_, (nf,), ty_))
+    dl = fresh_list(eng, "plan_D", "list[list[int]]")
+    st.assume(V.cmp("==", dl.n, nf))
+    pd_["D"] = eng.alloc(st, dl)
+    plan = eng.alloc(st, DictV(pd_))
+    o = st.heap[ref.loc]
+    flds = dict(o.fields)
+    flds["_plan_cache"] = plan
+    st.heap[ref.loc] = ObjV(o.cls, flds)
+    st.tags["frozen"]["plan"] = plan.loc
+
+
+def make_single_bin(iscsd, order, backend, kaiser=True, by_L=True, cached_plan=False):
     def setup(eng, st, fid, genv):
         from pyvc import values as V
 
-        build_analyzer(eng, st, fid, genv, iscsd, order, backend, kaiser)
+        ref = build_analyzer(eng, st, fid, genv, iscsd, order, backend, kaiser)
+        if cached_plan:
+            _install_cached_plan(eng, st, ref, genv)
         genv["FAMILYNAME"] = FAMILY[order]
         freq = eng.fresh("freq", "real")
         st.assume(V.cmp(">=", freq, 0))
@@ -88,7 +117,7 @@ def make_single_bin(iscsd, order, backend, kaiser=True, by_L=True):
             eng.setvar(st, fid, "fres", fr)
             eng.setvar(st, fid, "L", None)
 
-    tag = f"{'cross' if iscsd else 'auto'},order={order},{backend},{'kaiser' if kaiser else 'custom'},{'L' if by_L else 'fres'}"
+    tag = f"{'cross' if iscsd else 'auto'},order={order},{backend},{'kaiser' if kaiser else 'custom'},{'L' if by_L else 'fres'}" + (",plan-cached" if cached_plan else "")
     return Unit(
         id=f"analysis.SpectrumAnalyzer.compute_single_bin[{tag}]",
         module=M,
@@ -122,6 +151,9 @@ for _iscsd in (False, True):
         for _backend in ("numba", "numpy", "cuda"):
             UNITS.append(make_single_bin(_iscsd, _order, _backend))
 UNITS.append(make_single_bin(True, 0, "auto"))
+# call history: the same postconditions with a plan already cached on the analyzer (C14)
+UNITS.append(make_single_bin(False, 0, "numpy", cached_plan=True))
+UNITS.append(make_single_bin(True, 1, "numba", cached_plan=True))
 UNITS.append(make_single_bin(False, 2, "auto", kaiser=False))
 UNITS.append(make_single_bin(True, 1, "numba", by_L=False))
 UNITS.append(make_single_bin(False, 0, "numpy", kaiser=False, by_L=False))
@@ -604,6 +636,15 @@ def bounded_reference(tier, seed):
             if abs(sb.XX[0] - rxx) > 1e-6 * max(rxx, 1e-30) or (cross and abs(sb.XY[0] - rxy) > 1e-6 * max(rxx, ryy)):
                 fails.append({"label": "C05.single_bin", "input": {"scheduler": sched, "order": order, "backend": backend, "cross": cross, "L": L}, "detail": "single-bin result differs from the reference estimator for the reported segmentation"})
             # C14: repeating / interleaving does not change the numbers
+            for jj in sel[:: max(1, len(sel) // 6)]:
+                # single-bin requests for plan lengths, before (fresh analyzer) and after the full analysis
+                fresh_an = SpectrumAnalyzer([x, y] if cross else x, 10.0, olap=0.5, bmin=2.5, Lmin=20, Jdes=25, Kdes=12, order=order, win=win, scheduler=sched, backend=backend, **({"psll": psll} if psll else {}))
+                b0 = fresh_an.compute_single_bin(float(res.f[jj]), L=int(res.L[jj]))
+                b1 = an.compute_single_bin(float(res.f[jj]), L=int(res.L[jj]))
+                n += 1
+                if not (np.array_equal(b0.XX, b1.XX) and np.array_equal(b0.XY, b1.XY) and np.array_equal(np.asarray(b0.D[0]), np.asarray(b1.D[0]))):
+                    fails.append({"label": "C14.interleaved", "input": {"scheduler": sched, "order": order, "backend": backend, "cross": cross, "L": int(res.L[jj])}, "detail": "compute_single_bin after compute() differs from the same request on a fresh analyzer"})
+                    break
             res2 = an.compute()
             n += 1
             if not (np.array_equal(res.XX, res2.XX) and np.array_equal(res.XY, res2.XY)):
@@ -641,11 +682,12 @@ def bounded_gain_delay_trend(tier, seed):
     tt = np.arange(N) / N
     for backend in ("numba", "numpy"):
         for order in (-1, 0, 1, 2):
-            for g in (3.0, -0.25):
+            for g, amp in ((3.0, 1.0), (-0.25, 1.0), (-2.5, 1e-9), (0.5, 1e6)):
+                # (the statement is for every record: also very small and very large units)
                 n += 1
-                r = SpectrumAnalyzer([x + 0.5, g * (x + 0.5)], 10.0, olap=0.5, Lmin=200, Jdes=20, Kdes=10, order=order, win="hann", scheduler="ltf", backend=backend).compute()
+                r = SpectrumAnalyzer([amp * (x + 0.5), g * amp * (x + 0.5)], 10.0, olap=0.5, Lmin=200, Jdes=20, Kdes=10, order=order, win="hann", scheduler="ltf", backend=backend).compute()
                 if np.max(np.abs(r.Hxy - g)) > 1e-6 * abs(g) or np.max(np.abs(r.coh - 1)) > 1e-6:
-                    fails.append({"label": "C07.gain", "input": {"backend": backend, "order": order, "g": g}, "detail": f"max|Hxy-g|={np.max(np.abs(r.Hxy - g)):.3g}"})
+                    fails.append({"label": "C07.gain", "input": {"backend": backend, "order": order, "g": g, "amplitude": amp}, "detail": f"max|Hxy-g|={np.max(np.abs(r.Hxy - g)):.3g}, max|coh-1|={np.max(np.abs(r.coh - 1)):.3g}"})
             d = 2
             n += 1
             r = SpectrumAnalyzer([x, np.roll(x, d)], 10.0, olap=0.5, Lmin=400, Jdes=20, Kdes=10, order=order, win="hann", scheduler="ltf", backend=backend).compute()
@@ -662,6 +704,18 @@ def bounded_gain_delay_trend(tier, seed):
                 sc = 1e3 * float(np.sqrt(np.max(base.S12)))
                 if np.max(np.abs(np.sqrt(shifted.XX) - np.sqrt(base.XX))) > 1e-6 * sc:
                     fails.append({"label": "C08.trend_removed", "input": {"backend": backend, "order": order, "cross": cross}, "detail": "adding a polynomial of degree <= order changed the estimate"})
+                if order == 0 and not cross:
+                    # a record whose global mean is (numerically) zero: the constant must still be invisible
+                    x0 = x - np.mean(x)
+                    ramp = np.linspace(-1.0, 1.0, N) + 0.01 * x0
+                    ramp = ramp - np.mean(ramp)
+                    for rec, cst in ((x0, 3.0), (ramp, 3.0), (1e-13 * x0, 5e-13)):
+                        n += 1
+                        a0 = SpectrumAnalyzer(rec, 10.0, olap=0.5, Lmin=100, Jdes=15, Kdes=8, order=0, win="hann", scheduler="ltf", backend=backend).compute()
+                        a1 = SpectrumAnalyzer(rec + cst, 10.0, olap=0.5, Lmin=100, Jdes=15, Kdes=8, order=0, win="hann", scheduler="ltf", backend=backend).compute()
+                        sc0 = cst * float(np.sqrt(np.max(a0.S12)))
+                        if np.max(np.abs(np.sqrt(a1.XX) - np.sqrt(a0.XX))) > 1e-6 * sc0:
+                            fails.append({"label": "C08.trend_removed", "input": {"backend": backend, "order": 0, "record": "zero-mean record", "constant": cst}, "detail": "adding a constant to a centred record changed the order-0 estimate"})
                 hi = SpectrumAnalyzer(x + 1e3 * tt ** (order + 1), 10.0, olap=0.5, Lmin=100, Jdes=15, Kdes=8, order=order, win="hann", scheduler="ltf", backend=backend).compute()
                 if not np.max(np.abs(hi.XX - base.XX) / base.XX) > 1.0:
                     fails.append({"label": "C08.higher_degree_not_removed", "input": {"backend": backend, "order": order}, "detail": "a trend of degree order+1 does not change the estimate"})
